@@ -337,6 +337,9 @@ func TestC03(t *testing.T) {
 			return // bulk messages: only the encodings themselves (the catalogue is aimed at small ones)
 		}
 		faultCatalogue(enc, spans, b.Junk, run)
+		// after all those damaged frames the undamaged one still decodes as before (nothing is carried over
+		// from one Parse call to the next)
+		run(enc, "again-after-faults")
 	})
 }
 
